@@ -137,7 +137,7 @@ func WireFilter(t *rapid.T, label string) (*mocrelay.ReqFilter, JObj, int) {
 			case "e", "p":
 				vals = append(vals, hex64(t, l))
 			case "a":
-				d := rapid.OneOf(rapid.SampledFrom([]string{"", "x", "a:b", ":", "::x", "é:ü"}), UnicodeString(6)).Draw(t, l+"d")
+				d := rapid.OneOf(rapid.SampledFrom([]string{"", "x", "a:b", ":", "::x", "é:ü", "line1\nline2", "\n", "tab\there", "\r\n"}), UnicodeString(6)).Draw(t, l+"d")
 				vals = append(vals, AddrString(AnyKind().Draw(t, l+"k"), hex64(t, l+"pk"), d))
 			default:
 				vals = append(vals, UnicodeString(6).Draw(t, l))
